@@ -388,7 +388,7 @@ template <class T> void prop_minres(const problem<T> &pb, const cfg &c, const ch
     std::vector<W> r0 = sub(pb.f, mul(pb.A, pb.x0)), g = left ? mul(pb.P, r0) : r0;
     auto V = krylov_basis(B, g, K);
     ld fn = nrm(pb.f);
-    std::vector<long> gap, reps, its; ld prev = -1, inc = 0; int nbad = 0;
+    std::vector<long> gap, orth, reps, its; ld prev = -1, inc = 0; int nbad = 0;
     for (int k = 1; k <= (int)V.size(); ++k) {
         EMat<W> Wm(n, k); for (int j = 0; j < k; ++j) { std::vector<W> w = mul(B, V[j]); for (int i = 0; i < n; ++i) Wm(i, j) = w[i]; }
         EVec<W> ge = to_eigen(g);
@@ -398,13 +398,16 @@ template <class T> void prop_minres(const problem<T> &pb, const cfg &c, const ch
         if (!r.ok || !r.finite) { ++nbad; break; }
         std::vector<W> xw(n); for (int i = 0; i < n; ++i) xw[i] = W(x[i]);
         std::vector<W> rk = sub(pb.f, mul(pb.A, xw)); if (left) rk = mul(pb.P, rk);
-        gap.push_back(md((nrm(rk) - minres) / nrm(g)));            // excess over the optimum, relative to ||g||
+        gap.push_back(md((nrm(rk) - minres) / nrm(g)));            // excess over the optimum, relative to ||g|| (second order)
+        ld mx = 0;                                                  // first-order condition: r_k orthogonal to B K_k
+        for (int j = 0; j < k; ++j) { std::vector<W> w(n); for (int i = 0; i < n; ++i) w[i] = Wm(i, j); mx = std::max(mx, absv(dot(rk, w)) / nrm(w)); }
+        orth.push_back(md(mx / nrm(g)));
         reps.push_back(md(r.rep)); its.push_back((long)r.it);
         if (prev > 1e-12L) inc = std::max(inc, (ld)r.rep / prev - 1);
         prev = r.rep;
     }
     vr::obj o; o.str("k", "minres").str("method", c.method).str("side", c.side).str("vt", vt).i("id", id).i("n", n).i("M", c.M).i("K", c.K)
-        .i("idP", pb.identityP).i("cond", md(cond2(B))).ints("gap", gap).ints("rep", reps).ints("it", its).i("inc", md(inc)).i("nbad", nbad).i("dim", (long)V.size());
+        .i("idP", pb.identityP).i("cond", md(cond2(B))).ints("gap", gap).ints("orth", orth).ints("rep", reps).ints("it", its).i("inc", md(inc)).i("nbad", nbad).i("dim", (long)V.size());
     vr::emit(o.done());
 }
 // termination within n (+ n/s) iterations; exact preconditioner: one iteration
